@@ -6,6 +6,7 @@
 #include "c14_tracked.h"
 
 #include <algorithm>
+#include <map>
 #include <set>
 #include <string>
 #include <vector>
@@ -21,6 +22,40 @@ constexpr long NOARG = -0x7fffffffL;
 // progress of the (single) case thread, sampled by the CPU-time watchdog in c14_main.cpp
 inline std::atomic<uint64_t> g_opSeq{0};
 inline char g_curOp[96]; // kind of the operation in flight (racy read by the watchdog is fine: fixed buffer)
+// Crash cap. A fatal error costs a process restart; a regression that crashes in most cases of a component would
+// turn a 1-minute run into a quarter of an hour. The number of fatal errors / non-returning operations per
+// (component, optional-operation-class) of one run is therefore kept in a small state file shared by the
+// restarted processes of that run; after CRASH_CAP of them the remaining cases of that (component, class) are
+// skipped (counted in obs as cases_skipped_after_crash_cap). By then the violations are recorded, so the verdict is
+// not affected. Disabled for single-case replays.
+constexpr int CRASH_CAP = 30;
+inline std::map<std::string, int> g_crashCounts;
+inline std::string g_capFile; // empty = disabled
+inline char g_curCapKey[160];
+inline uint64_t g_skippedCases = 0;
+inline void loadCrashCounts() {
+  if (g_capFile.empty())
+    return;
+  if (FILE* f = fopen(g_capFile.c_str(), "r")) {
+    char key[200];
+    int n;
+    while (fscanf(f, "%199s %d", key, &n) == 2)
+      g_crashCounts[key] = n;
+    fclose(f);
+  }
+}
+//! called on the way out of a process that dies inside a case
+inline void bumpCrashCount() {
+  if (g_capFile.empty() || !g_curCapKey[0])
+    return;
+  ++g_crashCounts[g_curCapKey];
+  if (FILE* f = fopen(g_capFile.c_str(), "w")) {
+    for (auto& e : g_crashCounts)
+      fprintf(f, "%s %d\n", e.first.c_str(), e.second);
+    fclose(f);
+  }
+}
+
 // name of the check whose evaluation is in flight ("" = none): a fatal error or a non-returning call while a
 // check is being evaluated is a failure of that check and gets the same key as a wrong value would
 inline char g_checkCtx[96];
@@ -43,7 +78,7 @@ struct Case {
   bool thorough;
   std::string component;
   std::string cfg; // configuration class (goes into the signature)
-  bool begun = false;
+  bool begun = false, skipped = false;
 
   // outcome
   bool bad = false;
@@ -61,10 +96,19 @@ struct Case {
 
   Case(verif::Harness& h, long k_, uint64_t seed) : H(h), k(k_), rng(seed), thorough(h.thorough) {}
 
-  //! must be called by the runner before it touches the code under test
-  void begin(const std::string& comp, const std::string& cfgClass, J p) {
+  //! must be called by the runner before it touches the code under test; `optClass` names the optional
+  //! operation class enabled in this case ("" = none). Returns false when the case is to be skipped (crash cap).
+  bool begin(const std::string& comp, const std::string& cfgClass, J p, const std::string& optClass = "") {
     component = comp;
     cfg       = cfgClass;
+    std::string capKey = comp + "|" + (optClass.empty() ? "-" : optClass);
+    strncpy(g_curCapKey, capKey.c_str(), sizeof g_curCapKey - 1);
+    auto cc = g_crashCounts.find(capKey);
+    if (cc != g_crashCounts.end() && cc->second >= CRASH_CAP) {
+      skipped = begun = true;
+      ++g_skippedCases;
+      return false;
+    }
     J q;
     q.kv("component", comp);
     std::string rest = p.str();
@@ -73,6 +117,7 @@ struct Case {
       s = s.substr(0, s.size() - 1) + "," + rest.substr(1);
     H.begin(k, s);
     begun = true;
+    return true;
   }
 
   int nextVal() { return ++counter; }
@@ -138,6 +183,13 @@ struct Case {
       key += "-after-" + lastOp;
     d.kv("check", what).kv("after", lastOp).kv("step", ops).kv("config", cfg).kv("history", history());
     detail = d.str();
+  }
+
+  //! a lifetime violation recorded during the operation is reported before any value comparison
+  bool regOk() {
+    if (!bad && g_reg.bad)
+      fail(g_reg.kind, J().kv("during", g_reg.how).kv("live_instances", (uint64_t)g_reg.liveCount()));
+    return !bad;
   }
 
   //! registry state after a step: no lifetime violation recorded, and exactly
